@@ -190,7 +190,7 @@ func opJ(mop *model.Operation) (out interface{}) {
 	case *operations.ErrorOperation:
 		return J{"id": id, "t": "err", "code": uint32(c.GetCode())}
 	case *operations.TransactionOperation:
-		return J{"id": id, "t": "tx", "tag": c.GetBody().Tag, "n": c.GetNumOfOps()}
+		return J{"id": id, "t": "tx", "tag": canonTag(c.GetBody().Tag), "n": c.GetNumOfOps()}
 	case *operations.IncreaseOperation:
 		var b struct{ Delta int32 }
 		_ = json.Unmarshal(mop.Body, &b)
